@@ -16,7 +16,7 @@ from sim.world import Run
 
 ID = "C24"
 LEVEL = "exploration"
-RUNS = {"quick": 24000, "thorough": 400000}
+RUNS = {"quick": 24000, "thorough": 2400000}
 BUDGET = {"quick": 100.0, "thorough": 3300.0}
 RULE = ("one run = one seeded tunnel session (1-4 concurrent send_cemi callers, scripted gateway ACK "
         "behaviours, network drop/dup/delay, server disconnects, gateway crash); non-trivial = at least one "
